@@ -12,8 +12,9 @@
   IRI resolution: `Cfg.resolve` is instantiated with RFC 3986 §5.2 (`Spec.RFC3986.resolve`) on a
   *safe fragment* on which `/repo/iri` (a `net/url` wrapper with known deviations, D14) is expected
   to agree with the RFC: lower-case scheme, non-empty authority of `[a-z0-9.-]`, path of unreserved
-  characters and `/`, query/fragment of unreserved characters and `=&`, base absolute with
-  authority and without fragment (Go keeps the base's fragment for an empty reference). Outside the fragment the resolver answers `none`, the run ends with `err:resolve`,
+  characters and `/` without empty segments (Go's `resolvePath` treats `..//` unlike RFC 3986), query/fragment of unreserved characters and `=&`, base absolute with
+  authority, with a non-empty path and without fragment (Go keeps the base's fragment for an empty
+  reference and does not insert the `/` of RFC 3986 §5.2.3 under an empty base path). Outside the fragment the resolver answers `none`, the run ends with `err:resolve`,
   and the harness counts a resolver-caused skip when the implementation went on.
 -/
 import RdfModel.Driver.Wire
@@ -37,6 +38,11 @@ def safeAuth (a : List Nat) : Bool :=
   !a.isEmpty && a.all (fun c => isLower c || isDig c || c = 0x2d || c = 0x2e) &&
   a.head? != some 0x2e && a.head? != some 0x2d
 
+def noEmptySegment : List Nat → Bool
+  | 0x2f :: 0x2f :: _ => false
+  | _ :: rest => noEmptySegment rest
+  | [] => true
+
 def safeParts (p : Spec.RFC3986.Parts) : Bool :=
   (match p.scheme with
     | none => true
@@ -44,7 +50,7 @@ def safeParts (p : Spec.RFC3986.Parts) : Bool :=
   (match p.authority with
     | none => true
     | some a => safeAuth a) &&
-  p.path.all (fun c => unres c || c = 0x2f) &&
+  p.path.all (fun c => unres c || c = 0x2f) && noEmptySegment p.path &&
   (match p.query with | none => true | some q => q.all (fun c => unres c || c = 0x3d || c = 0x26)) &&
   (match p.fragment with | none => true | some q => q.all (fun c => unres c || c = 0x3d || c = 0x26))
 
@@ -56,7 +62,7 @@ def resolveSafe (base : Option (List Nat)) (ref : List Nat) : Option (List Nat) 
     | none => some ref
     | some b =>
       let B := Spec.RFC3986.split b
-      if safeParts B && B.scheme.isSome && B.authority.isSome && B.fragment.isNone then some (Spec.RFC3986.resolve b ref)
+      if safeParts B && B.scheme.isSome && B.authority.isSome && B.fragment.isNone && B.path.head? == some 0x2f then some (Spec.RFC3986.resolve b ref)
       else none
 
 def cfgOf (pkg : String) : Option Cfg :=
